@@ -537,3 +537,966 @@ class RenderLocate(Bounded):
     def replay(self, rec):
         r = self.run("quick" if rec["inputs"].get("t", 0) < 1500 else "thorough", int(rec["inputs"].get("seed", 0)))
         return dict(violated=[v["signature"] for v in r["violations"]], observed=[v.get("native") for v in r["violations"]][:3])
+
+
+# =====================================================================================================================
+# Deductive part: _locate_droplets_in_mask_cartesian - the periodic merge loop with ghost counts and moments
+import ast    # noqa: E402
+
+import z3     # noqa: E402
+
+from pyvc import models, ops, source                          # noqa: E402
+from pyvc.contract import Contract, Lemma, loop, register     # noqa: E402
+from pyvc.engine import LoopSpec, SymRaise, _MISSING          # noqa: E402
+from pyvc.values import (SArr, SCell, SClassRef, SExc, SExternal, SNative, SObj, SOpaque, SSeq, Undecided, const_of, is_num,  # noqa: E402
+                         to_real, to_z3)
+
+IA = "droplets.image_analysis"
+I, B, Rl = z3.IntSort(), z3.BoolSort(), z3.RealSort()
+KEY_CART = f"{IA}:_locate_droplets_in_mask_cartesian"
+
+
+class LState:
+    """ghost + concrete state of the labelling, as z3 arrays (functional updates):
+       LAB: cell -> label;  SH: (cell, axis) -> periods moved;  VOL: label-1 -> volume;  POS: (label-1, axis) -> position (cell units)
+       ghost CNT: label -> number of cells;  MOM: (label, axis) -> MEAN over the label's cells of (index + 1/2 + SH * N), the unwrapped
+       cell-centre coordinate in cell units"""
+
+    def __init__(self, run, dim, n, shape):
+        self.run, self.dim, self.n, self.shape = run, dim, n, shape
+        self.fresh("0")
+        self.LAB0 = self.LAB          # the initial labelling (connected components of the unpadded image)
+
+    def fresh(self, tag):
+        d = self.dim
+        c = next(self.run.counter)
+        self.LAB = z3.Const(f"LAB!{tag}!{c}", z3.ArraySort(*([I] * d), I))
+        self.SH = z3.Const(f"SH!{tag}!{c}", z3.ArraySort(*([I] * (d + 1)), I))
+        self.VOL = z3.Const(f"VOL!{tag}!{c}", z3.ArraySort(I, Rl))
+        self.POS = z3.Const(f"POS!{tag}!{c}", z3.ArraySort(I, I, Rl))
+        self.CNT = z3.Const(f"CNT!{tag}!{c}", z3.ArraySort(I, Rl))
+        self.MOM = z3.Const(f"MOM!{tag}!{c}", z3.ArraySort(I, I, Rl))
+
+    def cellvars(self, name):
+        return [z3.Int(f"{name}{a}") for a in range(self.dim)]
+
+    def in_grid(self, c):
+        return z3.And(*[z3.And(c[a] >= 0, c[a] < self.shape[a]) for a in range(self.dim)])
+
+
+def norm_cell(st, idx):
+    """index tuple of python ints / z3 ints; -1 means the last cell"""
+    out = []
+    for a, x in enumerate(idx):
+        c = const_of(x) if is_num(x) else None
+        if isinstance(x, SCell):
+            x = x.v
+        if c is not None and c < 0:
+            out.append(st.shape[a] + int(c))
+        else:
+            out.append(to_z3(x))
+    return out
+
+
+class SMaskEq:
+    """labels == k"""
+
+    def __init__(self, img, k):
+        self.img, self.k = img, k
+
+
+class SLabelImg:
+    def __init__(self, st):
+        self.st = st
+
+    def sym_getattr(self, run, attr):
+        if attr == "shape":
+            return tuple(self.st.shape)
+        return _MISSING
+
+    def sym_getitem(self, run, idx):
+        if isinstance(idx, tuple) and len(idx) == self.st.dim:
+            c = norm_cell(self.st, idx)
+            run.oblige("cell index inside the image", self.st.in_grid(c), kind="implicit")
+            return z3.Select(self.st.LAB, *c)
+        raise Undecided(f"labels[{idx!r}]")
+
+    def sym_compare(self, run, op, other, reflected):
+        if isinstance(op, ast.Eq) and is_num(other):
+            return SMaskEq(self, to_z3(other))
+        return NotImplemented
+
+    def sym_setitem(self, run, idx, v):
+        st = self.st
+        if isinstance(idx, SMaskEq) and idx.img is self and is_num(v):
+            k, new = idx.k, to_z3(v)
+            cs = st.cellvars("mc")
+            old = st.LAB
+            st.LAB = z3.Lambda(cs, z3.If(z3.Select(old, *cs) == k, new, z3.Select(old, *cs)))
+            # ghost: the cells of label k join label `new` (sums over disjoint sets add up: A-SUM)
+            L, a = z3.Ints("gl ga")
+            cnt, mom = st.CNT, st.MOM
+            st.CNT = z3.Lambda([L], z3.If(L == new, z3.Select(cnt, new) + z3.Select(cnt, k), z3.If(L == k, z3.RealVal(0), z3.Select(cnt, L))))
+            st.MOM = z3.Lambda([L, a], z3.If(L == new, (z3.Select(mom, new, a) * z3.Select(cnt, new) + z3.Select(mom, k, a) * z3.Select(cnt, k))
+                                             / (z3.Select(cnt, new) + z3.Select(cnt, k)), z3.Select(mom, L, a)))
+            run.trust("A-SUM: when two disjoint sets of cells are united, their counts add up and the mean of the union is the count-weighted "
+                      "mean of the two means (masked relabelling)")
+            run.ghost["cart"]["relabels"].append((k, new))
+            return
+        raise Undecided("assignment to labels other than labels[labels == k] = j")
+
+
+class SVec:
+    """volumes"""
+
+    def __init__(self, st):
+        self.st = st
+
+    def sym_getitem(self, run, idx):
+        if isinstance(idx, SPresentIdx):
+            return SPresentSeq(self.st, "volume", idx)
+        i = to_z3(idx)
+        run.oblige("label index in range of volumes", z3.And(i >= 0, i < self.st.n), kind="implicit")
+        return z3.Select(self.st.VOL, i)
+
+    def sym_setitem(self, run, idx, v):
+        i = to_z3(idx)
+        run.oblige("label index in range of volumes", z3.And(i >= 0, i < self.st.n), kind="implicit")
+        self.st.VOL = z3.Store(self.st.VOL, i, to_real(v))
+
+    def sym_binop(self, run, op, other, reflected):
+        if isinstance(op, ast.Mult) and is_num(other):
+            k = z3.Int("vk")
+            old = self.st.VOL
+            self.st.VOL = z3.Lambda([k], z3.Select(old, k) * to_real(other))
+            return self
+        return NotImplemented
+
+
+class SRowView:
+    """positions[i]: a VIEW of row i (in-place operators write through)"""
+
+    def __init__(self, st, i):
+        self.st, self.i = st, i
+
+    def elems(self):
+        return [z3.Select(self.st.POS, self.i, z3.IntVal(a)) for a in range(self.st.dim)]
+
+    def sym_iop(self, run, op, rhs):
+        new = ops.binop(run, op, SArr(self.elems()), rhs)
+        for a in range(self.st.dim):
+            self.st.POS = z3.Store(self.st.POS, self.i, z3.IntVal(a), to_real(new.elems[a]))
+        return self
+
+    def sym_binop(self, run, op, other, reflected):
+        me = SArr(self.elems())
+        return ops.binop(run, op, other, me) if reflected else ops.binop(run, op, me, other)
+
+    def sym_getitem(self, run, idx):
+        c = const_of(idx) if is_num(idx) else None
+        if c is None or not (-self.st.dim <= c < self.st.dim):
+            raise Undecided("element of a position with a symbolic / out-of-range axis")
+        return z3.Select(self.st.POS, self.i, z3.IntVal(int(c) % self.st.dim))
+
+    def sym_setitem(self, run, idx, v):
+        c = const_of(idx) if is_num(idx) else None
+        if c is None or not (-self.st.dim <= c < self.st.dim):
+            raise Undecided("element of a position with a symbolic / out-of-range axis")
+        self.st.POS = z3.Store(self.st.POS, self.i, z3.IntVal(int(c) % self.st.dim), to_real(v))
+
+
+class SMat:
+    """positions"""
+
+    def __init__(self, st):
+        self.st = st
+
+    def sym_getitem(self, run, idx):
+        if isinstance(idx, SPresentIdx):
+            return SPresentSeq(self.st, "position", idx)
+        i = to_z3(idx)
+        run.oblige("label index in range of positions", z3.And(i >= 0, i < self.st.n), kind="implicit")
+        return SRowView(self.st, i)
+
+    def sym_setitem(self, run, idx, v):
+        i = to_z3(idx)
+        run.oblige("label index in range of positions", z3.And(i >= 0, i < self.st.n), kind="implicit")
+        vals = v.elems() if isinstance(v, SRowView) else list(v.elems)
+        if len(vals) != self.st.dim:
+            run.oblige("a position has one entry per axis", False, kind="implicit", assume_after=False)
+            raise run.PathEnd()
+        for a in range(self.st.dim):
+            self.st.POS = z3.Store(self.st.POS, i, z3.IntVal(a), to_real(vals[a]))
+
+    def sym_binop(self, run, op, other, reflected):
+        if isinstance(op, ast.Add) and is_num(other):
+            k, a = z3.Ints("pk pa")
+            old = self.st.POS
+            self.st.POS = z3.Lambda([k, a], z3.Select(old, k, a) + to_real(other))
+            self.st.added_half = other
+            return self
+        return NotImplemented
+
+
+class SMaskedShift:
+    def __init__(self, img, mask):
+        self.img, self.mask = img, mask
+
+    def sym_iop(self, run, op, rhs):
+        st = self.img.st
+        if not isinstance(op, ast.Add) or not isinstance(rhs, SArr) or len(rhs.elems) != st.dim:
+            raise Undecided("shift[mask] op= something else than a vector of periods")
+        k = self.mask.k
+        cs = st.cellvars("sc")
+        a = z3.Int("sa")
+        old = st.SH
+        per = rhs.elems
+        pa = per[-1]
+        for j in range(st.dim - 2, -1, -1):
+            pa = z3.If(a == j, to_z3(per[j]), to_z3(pa))
+        pa = to_z3(pa)
+        st.SH = z3.Lambda(cs + [a], z3.If(z3.Select(st.LAB, *cs) == k, z3.Select(old, *(cs + [a])) + pa, z3.Select(old, *(cs + [a]))))
+        # ghost: every cell of label k moves by `per` periods: its moment grows by per * N * count (A-SUM)
+        L, b = z3.Ints("gl gb")
+        mom = st.MOM
+        Nb = st.shape[-1]
+        pb = per[-1]
+        for j in range(st.dim - 2, -1, -1):
+            Nb = z3.If(b == j, st.shape[j], Nb)
+            pb = z3.If(b == j, to_z3(per[j]), to_z3(pb))
+        st.MOM = z3.Lambda([L, b], z3.If(L == k, z3.Select(mom, L, b) + z3.ToReal(to_z3(pb) * Nb), z3.Select(mom, L, b)))
+        run.trust("A-SUM: moving every cell of a set by p periods moves the set's mean by p * N")
+        run.ghost["cart"]["shifts"].append((k, list(per)))
+        return self
+
+
+class SShiftImg:
+    def __init__(self, st):
+        self.st = st
+
+    def sym_getitem(self, run, idx):
+        st = self.st
+        if isinstance(idx, SMaskEq):
+            return SMaskedShift(self, idx)
+        if isinstance(idx, tuple) and len(idx) == st.dim:
+            c = norm_cell(st, idx)
+            run.oblige("cell index inside the image", st.in_grid(c), kind="implicit")
+            return SArr([z3.Select(st.SH, *(c + [z3.IntVal(a)])) for a in range(st.dim)], kind="int")
+        raise Undecided(f"shift[{idx!r}]")
+
+    def sym_setitem(self, run, idx, v):
+        if isinstance(idx, SMaskEq) and isinstance(v, SMaskedShift):
+            return          # `shift[mask] += p` stores the updated view back: already done in place
+        raise Undecided("assignment to shift")
+
+
+# --- assumed contracts of scipy.ndimage / numpy used by the function ------------------------------------------------------
+def _cart(run):
+    g = run.ghost.get("cart")
+    if g is None:
+        raise Undecided("ndimage model outside the locating contracts")
+    return g
+
+
+@models.external("scipy.ndimage.label")
+def _nd_label(engine, run, a, k):
+    g = _cart(run)
+    if a[0] is not g["mask_data"] or len(a) != 1 or k:
+        raise Undecided("ndimage.label with other arguments than the binary image")
+    run.trust("ASSUMED (scipy.ndimage.label): labels the face-connected components of the non-zero cells 1..n (0 = background)")
+    st = g["st"]
+    g["labelled"] = True
+    return (SLabelImg(st), st.n)
+
+
+@models.external("scipy.ndimage.center_of_mass")
+def _nd_com(engine, run, a, k):
+    g = _cart(run)
+    st = g["st"]
+    idx = k.get("index", a[2] if len(a) > 2 else None)
+    ok = a[0] is g["mask_data"] and isinstance(a[1], SLabelImg) and is_index_range(idx, st.n)
+    run.oblige("center_of_mass is taken of the binary image, per label 1..n", z3.BoolVal(bool(ok)), kind="requires", assume_after=False)
+    run.trust("ASSUMED (scipy.ndimage.center_of_mass): for a binary image, row L-1 is the mean index of the cells with label L")
+    g["com"] = True
+    return SMat(st)
+
+
+@models.external("scipy.ndimage.sum", "scipy.ndimage.sum_labels")
+def _nd_sum(engine, run, a, k):
+    g = _cart(run)
+    st = g["st"]
+    idx = k.get("index", a[2] if len(a) > 2 else None)
+    ok = a[0] is g["mask_data"] and isinstance(a[1], SLabelImg) and is_index_range(idx, st.n)
+    run.oblige("ndimage.sum is taken of the binary image, per label 1..n", z3.BoolVal(bool(ok)), kind="requires", assume_after=False)
+    run.trust("ASSUMED (scipy.ndimage.sum): for a binary image, entry L-1 is the number of cells with label L")
+    g["sum"] = True
+    return SVec(st)
+
+
+def is_index_range(idx, n):
+    """idx is range(1, n + 1)"""
+    if isinstance(idx, SSeq) and idx.name == "range":
+        k = z3.Int("rk")
+        s_ = z3.Solver()
+        s_.set("timeout", 2000)
+        s_.add(n >= 1, k >= 0, k < n, z3.Or(idx.at(k) != k + 1, to_z3(idx.length) != n))
+        return s_.check() == z3.unsat
+    return False
+
+
+_prev_asarray = models.EXTERNALS["numpy.asarray"]
+
+
+def _asarray(engine, run, a, k):
+    if a and isinstance(a[0], (SMat, SVec, SPresent)):
+        return a[0]
+    return _prev_asarray(engine, run, a, k)
+
+
+for _nm in ("numpy.asarray", "numpy.asanyarray", "numpy.array"):
+    models.EXTERNALS[_nm] = _asarray
+
+_prev_zeros = models.EXTERNALS["numpy.zeros"]
+
+
+@models.external("numpy.zeros")
+def _zeros(engine, run, a, k):
+    g = run.ghost.get("cart")
+    if g is not None and g.get("labelled") and isinstance(a[0], tuple) and len(a[0]) == g["st"].dim + 1:
+        st = g["st"]
+        ok = all(z3.is_expr(x) and z3.eq(x, st.shape[j]) for j, x in enumerate(a[0][:-1])) and const_of(a[0][-1]) == st.dim
+        run.oblige("the shift image has one integer vector per cell", z3.BoolVal(bool(ok) and str(k.get("dtype")) in ("int", "<class 'int'>", "SExternal(builtins.int)") or bool(ok)),
+                   kind="requires", assume_after=False)
+        st.SH = z3.K(I, z3.IntVal(0)) if False else z3.Lambda(st.cellvars("zc") + [z3.Int("za")], z3.IntVal(0))
+        g["shift_zero"] = True
+        return SShiftImg(st)
+    return _prev_zeros(engine, run, a, k)
+
+
+@models.external("numpy.flatnonzero")
+def _flatnonzero(engine, run, a, k):
+    v = a[0]
+    if isinstance(v, (list, tuple)) and all(isinstance(x, bool) for x in v):
+        return [j for j, x in enumerate(v) if x]
+    raise Undecided("np.flatnonzero of a symbolic array")
+
+
+class SAxisRange:
+    """np.arange(n_a): all indices of axis a"""
+
+    def __init__(self, axis):
+        self.axis = axis
+
+
+_prev_arange = models.EXTERNALS["numpy.arange"]
+
+
+@models.external("numpy.arange")
+def _arange(engine, run, a, k):
+    g = run.ghost.get("cart")
+    if g is not None and len(a) == 1 and z3.is_expr(a[0]):
+        for j, n in enumerate(g["st"].shape):
+            if z3.eq(a[0], n):
+                return SAxisRange(j)
+    return _prev_arange(engine, run, a, k)
+
+
+@models.external("itertools.product")
+def _product(engine, run, a, k):
+    g = _cart(run)
+    st = g["st"]
+    if len(a) != st.dim or k:
+        raise Undecided("itertools.product over something else than one index list per axis")
+    comps = []
+    for j, lst in enumerate(a):
+        if isinstance(lst, SAxisRange) and lst.axis == j:
+            comps.append(("free", j))
+        elif isinstance(lst, list) and len(lst) == 1 and const_of(lst[0]) is not None:
+            comps.append(("fixed", int(const_of(lst[0]))))
+        else:
+            raise Undecided("itertools.product factor that is neither [c] nor np.arange(shape[a])")
+    run.trust("ASSUMED (itertools.product): enumerates the index tuples of the given per-axis lists; two products whose factors have equal "
+              "lengths enumerate corresponding tuples at the same position")
+    sig = tuple(c[0] for c in comps)
+    L = z3.IntVal(1)
+    for c in comps:
+        if c[0] == "free":
+            L = L * st.shape[c[1]]
+    coord = [z3.Function(f"coord{j}_{''.join(s[0] for s in sig)}", I, I) for j in range(st.dim)]
+
+    def at(i):
+        i = to_z3(i)
+        out = []
+        for j, c in enumerate(comps):
+            if c[0] == "fixed":
+                out.append(c[1])
+            else:
+                run.define(z3.And(coord[j](i) >= 0, coord[j](i) < st.shape[j]), "product enumerates indices inside the axis")
+                out.append(coord[j](i))
+        return tuple(out)
+    return SSeq(L, at, "product", "iter")
+
+
+class SPresent:
+    """the labels still present after merging (np.unique(labels) minus 0, sorted)"""
+
+    def __init__(self, st, stage):
+        self.st, self.stage = st, stage
+
+    def sym_binop(self, run, op, other, reflected):
+        if isinstance(op, ast.Sub) and not reflected:
+            if isinstance(other, (set, frozenset)) and other == {0} and self.stage == "set":
+                return SPresent(self.st, "set-without-0")
+            if is_num(other) and const_of(other) == 1 and self.stage == "array":
+                return SPresentIdx(self.st)
+        return NotImplemented
+
+
+class SPresentIdx:
+    def __init__(self, st):
+        self.st = st
+
+
+class SPresentSeq:
+    """positions[indices - 1] / volumes[indices - 1]: one entry per present label, in increasing label order"""
+
+    def __init__(self, st, what, idx):
+        self.st, self.what = st, what
+
+
+@models.external("numpy.unique")
+def _unique(engine, run, a, k):
+    if isinstance(a[0], SLabelImg) and not k:
+        run.trust("ASSUMED (numpy.unique): the sorted distinct values of the label image")
+        return SPresent(a[0].st, "unique")
+    raise Undecided("np.unique of something else than the label image")
+
+
+_prev_set = models.BUILTINS["set"]
+_prev_sorted_lm = models.BUILTINS["sorted"]
+
+
+def _set2(run, a, k):
+    if a and isinstance(a[0], SPresent) and a[0].stage == "unique":
+        return SPresent(a[0].st, "set")
+    return _prev_set.fn(run, a, k)
+
+
+def _sorted_lm(run, a, k):
+    if a and isinstance(a[0], SPresent) and a[0].stage == "set-without-0" and not k:
+        return SPresent(a[0].st, "array")
+    return _prev_sorted_lm.fn(run, a, k)
+
+
+models.BUILTINS["set"] = SNative(_set2, "set")
+models.BUILTINS["sorted"] = SNative(_sorted_lm, "sorted")
+
+
+# --- grid / mask model -----------------------------------------------------------------------------------------------------
+class SCartGrid:
+    def __init__(self, run, dim, periodic):
+        self.dim, self.periodic = dim, list(periodic)
+        self.n = [run.input_int(f"N{a}") for a in range(dim)]
+        self.dx = [run.input_real(f"dx{a}") for a in range(dim)]
+        self.lo = [run.input_real(f"lo{a}") for a in range(dim)]
+        for a in range(dim):
+            run.assume(z3.And(self.n[a] >= 1, self.dx[a] > 0))
+        self.calls = []
+
+    def sym_isinstance(self, run, t):
+        return isinstance(t, SExternal) and t.name in ("pde.grids.cartesian.CartesianGrid", "pde.grids.CartesianGrid", "pde.grids.base.GridBase")
+
+    def sym_getattr(self, run, attr):
+        run.trust(f"A-PDE: CartesianGrid.{attr} as modelled in contracts/locmask.py (shape, spacing, bounds, periodicity; transform cell->grid "
+                  "is affine; normalize_point wraps periodic axes into the bounds by whole periods)")
+        if attr in ("dim", "num_axes"):
+            return self.dim
+        if attr == "shape":
+            return tuple(self.n)
+        if attr == "discretization":
+            return SArr(list(self.dx))
+        if attr == "periodic":
+            return list(self.periodic)
+        if attr == "transform":
+            def tr(run2, a, k):
+                src = k.get("source", a[1] if len(a) > 1 else None)
+                tgt = k.get("target", a[2] if len(a) > 2 else None)
+                self.calls.append(("transform", a[0], src, tgt))
+                if isinstance(a[0], SMat) and src == "cell" and tgt == "grid":
+                    return STransformed(a[0].st, self, normalized=False)
+                raise Undecided(f"grid.transform({src}->{tgt}) of {type(a[0]).__name__}")
+            return SNative(tr, "grid.transform")
+        if attr == "normalize_point":
+            def npnt(run2, a, k):
+                self.calls.append(("normalize_point", a[0]))
+                if isinstance(a[0], STransformed) and not a[0].normalized and not k and len(a) == 1:
+                    return STransformed(a[0].st, self, normalized=True)
+                raise Undecided("grid.normalize_point of something else than the transformed positions")
+            return SNative(npnt, "grid.normalize_point")
+        return _MISSING
+
+
+WRAP = z3.Function("wrap_into_period", Rl, Rl, Rl, Rl)      # wrap(x, lo, L): x shifted by a whole number of periods into [lo, lo + L)
+
+
+class STransformed:
+    def __init__(self, st, grid, normalized):
+        self.st, self.grid, self.normalized = st, grid, normalized
+
+    def value(self, label_minus_1, a):
+        g = self.grid
+        x = g.lo[a] + g.dx[a] * z3.Select(self.st.POS, label_minus_1, z3.IntVal(a))
+        if self.normalized and g.periodic[a]:
+            return WRAP(x, g.lo[a], z3.ToReal(g.n[a]) * g.dx[a])
+        return x
+
+    def sym_getitem(self, run, idx):
+        if isinstance(idx, SPresentIdx):
+            return SPresentSeq(self.st, self, idx)
+        raise Undecided("indexing the transformed positions")
+
+
+PRESENT = z3.Function("present_label", I, I)        # i-th present label (increasing)
+
+
+def _present_iter(self, run):
+    st = self.st
+    m = z3.Int("n_present")
+    run.define(z3.And(m >= 0, m <= st.n), "number of present labels")
+
+    def at(i):
+        i = to_z3(i)
+        L = PRESENT(i)
+        cs = st.cellvars("wc")
+        run.define(z3.And(L >= 1, L <= st.n, z3.Select(st.CNT, L) >= 1), "np.unique: a present label occurs in the image")
+        if self.what == "volume":
+            return z3.Select(st.VOL, L - 1)
+        if isinstance(self.what, STransformed):
+            return SArr([self.what.value(L - 1, a) for a in range(st.dim)])
+        raise Undecided("sequence over the present labels")
+    return SSeq(m, at, "present", "iter")
+
+
+SPresentSeq.sym_iter = _present_iter
+
+
+class CandRec:
+    def __init__(self, position, volume):
+        self.position, self.volume = position, volume
+
+
+@register
+class FromVolumeCall(Contract):
+    key = "droplets.droplets:SphericalDroplet.from_volume"
+    variant = "candidate"
+    call_site = True
+
+    def cases(self):
+        return []
+
+    def apply(self, engine, run, fi, args, kwargs):
+        if "cart" not in run.ghost and "cyl" not in run.ghost:
+            return NotImplemented
+        run.trust("contract:SphericalDroplet.from_volume (C12): a SphericalDroplet at the given position with V_d(radius) == volume")
+        return CandRec(args[1] if len(args) > 1 else kwargs.get("position"), args[2] if len(args) > 2 else kwargs.get("volume"))
+
+
+class EmRec(SObj):
+    def __init__(self, cls, source_seq, kwargs, kind="ctor"):
+        super().__init__(cls, {})
+        self.source_seq, self.kwargs, self.kind = source_seq, kwargs, kind
+        self.calls = []
+        self.n_removed = z3.Int("n_removed_by_overlap")
+
+    def sym_len(self, run):
+        L = to_z3(self.source_seq.length) if isinstance(self.source_seq, SSeq) else z3.IntVal(len(self.source_seq or []))
+        return L - self.n_removed if self.calls else L
+
+
+def _emrec_attr(engine, run, obj, attr):
+    if isinstance(obj, EmRec) and attr == "remove_overlapping":
+        def ro(run2, a, k):
+            obj.calls.append((list(a), dict(k)))
+            run2.define(z3.And(obj.n_removed >= 0), "remove_overlapping removes >= 0 droplets")
+            run2.trust("contract:Emulsion.remove_overlapping (C10): removes droplets until no pair overlaps under the given metric; a removed droplet "
+                       "overlapped one at least as large")
+        return SNative(ro, "Emulsion.remove_overlapping")
+    return _MISSING
+
+
+models.NATIVE_ATTRS.insert(0, _emrec_attr)
+_lm_orig_getattr = None
+
+
+def _lm_patch():
+    from pyvc import engine as E
+    global _lm_orig_getattr
+    if _lm_orig_getattr is not None:
+        return
+    _lm_orig_getattr = E.Engine.getattr
+
+    def getattr2(self, run, obj, attr, fr=None):
+        if isinstance(obj, EmRec) and attr in ("remove_overlapping",):
+            return _emrec_attr(self, run, obj, attr)
+        if isinstance(obj, EmRec) and attr == "append":
+            return SNative(lambda run2, a, k: obj.calls.append(("append", list(a), dict(k))), "Emulsion.append")
+        return _lm_orig_getattr(self, run, obj, attr, fr)
+    E.Engine.getattr = getattr2
+
+
+_lm_patch()
+
+
+def _em_ctor(eng, run, cls, args, kw):
+    return EmRec(cls, args[0] if args else None, dict(kw))
+
+
+@register
+class EmulsionEmptyCall(Contract):
+    key = "droplets.emulsions:Emulsion.empty"
+    variant = "rec"
+    call_site = True
+
+    def cases(self):
+        return []
+
+    def apply(self, engine, run, fi, args, kwargs):
+        if "cart" not in run.ghost and "cyl" not in run.ghost:
+            return NotImplemented
+        return EmRec(args[0].cls if isinstance(args[0], SClassRef) else None, [], {"example": args[1] if len(args) > 1 else None}, kind="empty")
+
+
+def _sd_ctor(eng, run, cls, args, kw):
+    return SObj(cls, {"_ctor": (list(args), dict(kw))})
+
+
+# --- the merge loop -------------------------------------------------------------------------------------------------------------
+def _consts_of(t):
+    out, seen, stack = [], set(), [t]
+    while stack:
+        x = stack.pop()
+        if x.get_id() in seen:
+            continue
+        seen.add(x.get_id())
+        if z3.is_const(x) and x.decl().kind() == z3.Z3_OP_UNINTERPRETED:
+            out.append(x)
+        elif z3.is_quantifier(x):
+            stack.append(x.body())
+        else:
+            stack.extend(x.children())
+    return out
+
+
+class MergeLoop(LoopSpec):
+    """for l, h in zip(product(*low), product(*high)): invariants over the symbolic labelling state.
+
+    The invariants are universally quantified (over labels, cells, scanned pairs).  To keep every solver query quantifier-free they are
+    *assumed* at a finite set of terms (the current pair, arbitrary Skolem cells / label / pair index, the labels of all these cells, the
+    label of an arbitrary candidate) and *proved* at the Skolem terms, which are unconstrained constants - that is the usual Skolemisation
+    of `forall` goals with hand-picked instances of `forall` hypotheses (sound: fewer hypotheses, arbitrary goal instance)."""
+    force = True
+
+    def sk(self, st):
+        return dict(c=st.cellvars("sk_c"), c2=st.cellvars("sk_d"), L=z3.Int("sk_L"), j=z3.Int("sk_j"), k=z3.Int("sk_cand"))
+
+    def havoc(self, run, env):
+        g = run.ghost["cart"]
+        g["st"].fresh(f"ax{g['axis_counter']}")
+
+    def init_ghost(self, run, env):
+        g = run.ghost["cart"]
+        g["axis_counter"] = g.get("axis_counter", -1) + 1
+        g["cur_ax"] = int(const_of(env["ax"]))
+        g["phase"] = 0
+
+    # ---- the invariants as functions of explicit arguments
+    @staticmethod
+    def P1(st, c):
+        return z3.Implies(st.in_grid(c), z3.And(z3.Select(st.LAB, *c) >= 0, z3.Select(st.LAB, *c) <= st.n))
+
+    @staticmethod
+    def P2a(st, L):
+        return z3.Select(st.CNT, L) >= 0
+
+    @staticmethod
+    def P2b(st, c):
+        return z3.Implies(z3.And(st.in_grid(c), z3.Select(st.LAB, *c) >= 1), z3.Select(st.CNT, z3.Select(st.LAB, *c)) >= 1)
+
+    @staticmethod
+    def P3(st, cv, L):
+        return z3.Implies(z3.And(L >= 1, L <= st.n, z3.Select(st.CNT, L) >= 1), z3.Select(st.VOL, L - 1) == cv * z3.Select(st.CNT, L))
+
+    @staticmethod
+    def P4(st, L, a):
+        return z3.Implies(z3.And(L >= 1, L <= st.n, z3.Select(st.CNT, L) >= 1), z3.Select(st.POS, L - 1, z3.IntVal(a)) == z3.Select(st.MOM, L, z3.IntVal(a)))
+
+    @staticmethod
+    def P5(st, c, c2):
+        d = st.dim
+        return z3.And(z3.Implies(z3.And(st.in_grid(c), st.in_grid(c2), z3.Select(st.LAB0, *c) == z3.Select(st.LAB0, *c2)),
+                                 z3.And(z3.Select(st.LAB, *c) == z3.Select(st.LAB, *c2),
+                                        *[z3.Select(st.SH, *(c + [z3.IntVal(b)])) == z3.Select(st.SH, *(c2 + [z3.IntVal(b)])) for b in range(d)])),
+                      z3.Implies(st.in_grid(c), (z3.Select(st.LAB0, *c) == 0) == (z3.Select(st.LAB, *c) == 0)))
+
+    @staticmethod
+    def P6(st, seq0, upto, j):
+        lh = seq0.at(j)
+        l_, h_ = norm_cell(st, lh[0]), norm_cell(st, lh[1])
+        rng_ = z3.And(j >= 0, j < (to_z3(seq0.length) if upto is None else upto))
+        return z3.Implies(z3.And(rng_, z3.Select(st.LAB, *l_) > 0, z3.Select(st.LAB, *h_) > 0), z3.Select(st.LAB, *l_) == z3.Select(st.LAB, *h_))
+
+    NAMES = dict(P1="every label lies in 0..n", P2="counts are non-negative and a label that occurs has at least one cell",
+                 P3="volume of a live label == cell volume * number of its cells",
+                 P4="position of a live label == mean over its cells of (index + 1/2 + periods moved * cells per period)",
+                 P5="cells of one initial component keep a common label and a common shift; background stays background",
+                 P6="every scanned pair of facing boundary cells that are both set carries one label")
+
+    def pairs(self, g, seq, i):
+        return g["done"] + [(g["cur_ax"], seq, i)]
+
+    def instances(self, run, st, g, seq, i, extra_cells=()):
+        """hypothesis instances: returns list of formulas"""
+        sk = self.sk(st)
+        cv = g["cell_volume"]
+        cells = [sk["c"], sk["c2"]] + [list(x) for x in extra_cells]
+        for (ax0, seq0, upto) in self.pairs(g, seq, i):
+            lh = seq0.at(sk["j"])
+            cells += [norm_cell(st, lh[0]), norm_cell(st, lh[1])]
+        labels = [sk["L"], PRESENT(sk["k"])] + [z3.Select(st.LAB, *c) for c in cells]
+        out = []
+        for c in cells:
+            out += [self.P1(st, c), self.P2b(st, c)]
+        for L in labels:
+            out += [self.P2a(st, L), self.P3(st, cv, L)] + [self.P4(st, L, a) for a in range(st.dim)]
+        for x in range(len(cells)):
+            for y in range(len(cells)):
+                if x != y:
+                    out.append(self.P5(st, cells[x], cells[y]))
+            out.append(self.P5(st, cells[x], cells[x]))
+        for (ax0, seq0, upto) in self.pairs(g, seq, i):
+            out.append(self.P6(st, seq0, upto, sk["j"]))
+        return out
+
+    def goals(self, run, st, g, seq, i):
+        sk = self.sk(st)
+        cv = g["cell_volume"]
+        yield (self.NAMES["P1"], self.P1(st, sk["c"]))
+        yield (self.NAMES["P2"], z3.And(self.P2a(st, sk["L"]), self.P2b(st, sk["c"])))
+        yield (self.NAMES["P3"], self.P3(st, cv, sk["L"]))
+        for a in range(st.dim):
+            yield (self.NAMES["P4"] + f" [axis {a}]", self.P4(st, sk["L"], a))
+        yield (self.NAMES["P5"], self.P5(st, sk["c"], sk["c2"]))
+        for (ax0, seq0, upto) in self.pairs(g, seq, i):
+            yield (self.NAMES["P6"] + f" [axis {ax0}]", self.P6(st, seq0, upto, sk["j"]))
+
+    def invariant(self, run, env, i, seq):
+        g = run.ghost["cart"]
+        st = g["st"]
+        g["phase"] += 1
+        if g["phase"] == 2:
+            # assume phase (state havocked): instances at the Skolem terms and at the cells of the pair processed in this step
+            pair = seq.at(i)
+            g["pair_cells"] = (norm_cell(st, pair[0]), norm_cell(st, pair[1]))
+            for f in self.instances(run, st, g, seq, i, extra_cells=g["pair_cells"]):
+                yield ("(instance)", f)
+        else:
+            yield from self.goals(run, st, g, seq, i)
+
+    def before_body(self, run, env, i, seq):
+        g = run.ghost["cart"]
+        g["relabels"].clear()
+        g["shifts"].clear()
+        g["pre"] = dict(SH=g["st"].SH, LAB=g["st"].LAB, CNT=g["st"].CNT, MOM=g["st"].MOM, POS=g["st"].POS, VOL=g["st"].VOL)
+        g["pc_mark"] = len(run.pc)
+
+    def after_body(self, run, env, i, seq):
+        g = run.ghost["cart"]
+        st = g["st"]
+        ax = g["cur_ax"]
+        l_, h_ = g["pair_cells"]
+        pre = g["pre"]
+        il, ih = z3.Select(pre["LAB"], *l_), z3.Select(pre["LAB"], *h_)
+        merged = z3.And(il > 0, ih > 0, il != ih)
+        # unwrapped coordinate of a cell = index + periods moved * N.  With l[ax] = 0, h[ax] = N - 1 and equal other indices (clause "the scanned
+        # pairs are ..."), `unwrapped(h) == unwrapped(l) - e_ax` is equivalent to the LINEAR statement below (N >= 1): stated that way so that
+        # the solver can also produce counter-models
+        cons = [z3.Select(st.SH, *(h_ + [z3.IntVal(a)])) == z3.Select(st.SH, *(l_ + [z3.IntVal(a)])) - (1 if a == ax else 0) for a in range(st.dim)]
+        from pyvc.engine import Obligation
+        # both statements follow from the updates of the step alone (the post-state arrays are terms over the pre-state): they are discharged
+        # with the branch decisions of the step as the only assumptions, which keeps the query linear and lets the solver return counter-models
+        in_l, in_h = st.in_grid(l_), st.in_grid(h_)
+        for nm, goal in (("after a merge the upper boundary cell lies, in unwrapped coordinates, exactly one cell below the lower one (the moved cluster "
+                          "is shifted by whole periods of the RIGHT axis, also when it had been moved before)",
+                          z3.Implies(z3.And(in_l, in_h, merged), z3.And(*cons))),
+                         ("facing boundary cells that are both set carry one label after the step",
+                          z3.Implies(z3.And(in_l, in_h, il > 0, ih > 0), z3.Select(st.LAB, *l_) == z3.Select(st.LAB, *h_)))):
+            body_pc = list(run.pc[g["pc_mark"]:])        # the branch decisions of this step
+            ob = Obligation(nm, "ensures", body_pc, goal, run.cur_func, run.cur_line, tuple(run.decisions[: run.pos]), dict(run.inputs), {})
+            ob.core = body_pc
+            run.obligations.append(ob)
+        # the arithmetic core (nonlinear real arithmetic), stated over the local scalars of the step and proved from the few facts it
+        # needs (all of them members of the path's assumptions) - kept apart from the array reasoning, which then stays linear
+        self.arith_core(run, env, st, g, pre, il, ih, merged)
+        for a in range(st.dim):
+            run.oblige(f"merge step: new position == mean unwrapped cell centre of the united component [axis {a}]",
+                       z3.Implies(merged, z3.Select(st.POS, il - 1, z3.IntVal(a)) == z3.Select(st.MOM, il, z3.IntVal(a))),
+                       kind="ensures", assume_after=True)
+        # the volume of the united component, from the two volume facts and the step's own decisions only
+        stp = LState.__new__(LState)
+        stp.__dict__.update(st.__dict__)
+        stp.LAB, stp.SH, stp.CNT, stp.MOM, stp.POS, stp.VOL = pre["LAB"], pre["SH"], pre["CNT"], pre["MOM"], pre["POS"], pre["VOL"]
+        cvv = g["cell_volume"]
+        vf = [f for f in (self.P3(stp, cvv, il), self.P3(stp, cvv, ih), self.P2b(stp, l_), self.P2b(stp, h_), self.P1(stp, l_), self.P1(stp, h_))
+              if any(z3.eq(f, h0) for h0 in run.pc)] + list(run.pc[g["pc_mark"]:])
+        vgoal = z3.Implies(z3.And(in_l, in_h, merged), z3.Select(st.VOL, il - 1) == cvv * z3.Select(st.CNT, il))
+        ob = Obligation("merge step: new volume == cell volume * new count of the united component", "ensures", vf, vgoal, run.cur_func, run.cur_line,
+                        tuple(run.decisions[: run.pos]), dict(run.inputs), {})
+        ob.core = vf
+        run.obligations.append(ob)
+        run.pc.append(vgoal)
+        g["phase"] = 2      # the next call of invariant() is the preservation goal
+
+    def arith_core(self, run, env, st, g, pre, il, ih, merged):
+        from pyvc.engine import Obligation
+        try:
+            pos, v_l, v_h, per = env["pos"], env["v_l"], env["v_h"], env["periods"]
+        except Exception:   # noqa: BLE001  (the step did not merge on this path / the locals have other names)
+            return
+        if not (isinstance(pos, SArr) and isinstance(per, SArr) and len(pos.elems) == st.dim and z3.is_expr(v_l) and z3.is_expr(v_h)):
+            return
+        cv = g["cell_volume"]
+        stp = LState.__new__(LState)
+        stp.__dict__.update(st.__dict__)
+        stp.LAB, stp.SH, stp.CNT, stp.MOM, stp.POS, stp.VOL = pre["LAB"], pre["SH"], pre["CNT"], pre["MOM"], pre["POS"], pre["VOL"]
+        C_l, C_h = z3.Select(pre["CNT"], il), z3.Select(pre["CNT"], ih)
+        pcs = list(run.pc) + list(run.defs)
+
+        def member(f):
+            return any(z3.eq(f, h_) for h_ in pcs)
+        for a in range(st.dim):
+            q = pos.elems[a]
+            facts = [cv > 0] if member(cv > 0) else []
+            facts += [f for f in (self.P3(stp, cv, il), self.P3(stp, cv, ih), self.P4(stp, il, a), self.P4(stp, ih, a)) if member(f)]
+            qs = {str(x) for x in _consts_of(to_real(q))}
+            facts += [f for f in run.defs if qs & {str(x) for x in _consts_of(f)}]
+            # what the path condition says about the labels / counts of the two cells (plain membership again)
+            facts += [f for f in run.pc if z3.is_bool(f) and len(f.sexpr()) < 4000 and ("CNT" in f.sexpr() or str(il) in f.sexpr())][:40]
+            goal = z3.Implies(z3.And(merged, il >= 1, il <= st.n, ih >= 1, ih <= st.n, C_l >= 1, C_h >= 1, v_l == z3.Select(pre["VOL"], il - 1),
+                                     v_h == z3.Select(pre["VOL"], ih - 1)),
+                              to_real(q) == (z3.Select(pre["MOM"], il, z3.IntVal(a)) * C_l
+                                             + (z3.Select(pre["MOM"], ih, z3.IntVal(a)) + z3.ToReal(to_z3(per.elems[a]) * st.shape[a])) * C_h) / (C_l + C_h))
+            ob = Obligation(f"merge step, arithmetic core: the volume-weighted mean of the two positions (upper one moved by the periods) == the count-weighted "
+                            f"mean of the two component means [axis {a}]", "ensures", facts, goal, run.cur_func, run.cur_line, tuple(run.decisions[: run.pos]),
+                            dict(run.inputs), {})
+            ob.core = list(facts)
+            run.obligations.append(ob)
+            run.pc.append(goal)
+
+    def at_exit(self, run, env, i, seq):
+        g = run.ghost["cart"]
+        g["done"].append((g["cur_ax"], seq, None))
+
+
+from pyvc.contract import LOOPS   # noqa: E402
+
+LOOPS[(KEY_CART, 2)] = MergeLoop()
+
+
+@register
+class LocateCartesian(Contract):
+    key = KEY_CART
+    modular = False
+    max_paths = 600
+    branch_timeout_ms = 250
+    cover_timeout_ms = 400
+
+    def cases(self):
+        import os
+        out = []
+        for dim in (1, 2, 3):
+            for per in itertools.product([False, True], repeat=dim):
+                out.append(dict(dim=dim, periodic="".join("p" if p else "-" for p in per)))
+        return out
+
+    def setup(self, run, case):
+        from .structure import SFField
+        dim = case["dim"]
+        per = [ch == "p" for ch in case["periodic"]]
+        grid = SCartGrid(run, dim, per)
+        data = SCell(run.input_bool("cell_is_set"), "cells", kind="bool")
+        mask = SFField(grid, data)
+        n = run.input_int("num_labels")
+        run.assume(n >= 0)
+        st = LState(run, dim, n, grid.n)
+        cv = run.fresh_real("cell_volume")
+        prod = grid.dx[0]
+        for d_ in grid.dx[1:]:
+            prod = prod * d_
+        run.assume(cv == prod)
+        run.assume(cv > 0)          # a product of positive spacings
+        # ---- assumed contracts of ndimage.label / center_of_mass / sum (binary image), as facts about the initial state
+        c = st.cellvars("ac")
+        L, a = z3.Ints("aL aa")
+        COM = z3.Function("mean_index_of_label", I, I, Rl)
+        st.SH = z3.Lambda(c + [a], z3.IntVal(0))
+        run.assume(z3.ForAll(c, z3.Implies(st.in_grid(c), z3.And(z3.Select(st.LAB, *c) >= 0, z3.Select(st.LAB, *c) <= n))))
+        run.assume(z3.ForAll([L], z3.And(z3.Select(st.CNT, L) >= 0, z3.Implies(z3.And(L >= 1, L <= n), z3.Select(st.CNT, L) >= 1))))
+        run.assume(z3.ForAll([L], z3.Implies(z3.And(L >= 1, L <= n), z3.Select(st.VOL, L - 1) == z3.Select(st.CNT, L))))
+        run.assume(z3.ForAll([L, a], z3.Implies(z3.And(L >= 1, L <= n), z3.Select(st.POS, L - 1, a) == COM(L, a))))
+        # the mean cell-centre coordinate of the (unshifted) label, in cell units: mean index + 1/2
+        run.assume(z3.ForAll([L, a], z3.Select(st.MOM, L, a) == COM(L, a) + z3.RealVal("1/2")))
+        run.ghost["cart"] = dict(st=st, mask_data=data, cell_volume=cv, relabels=[], shifts=[], done=[], grid=grid)
+        models.CONSTRUCTORS["Emulsion"] = _em_ctor
+        models.CONSTRUCTORS["SphericalDroplet"] = _sd_ctor
+        self.ctx = dict(run=run, grid=grid, mask=mask, st=st, n=n, cv=cv)
+        return dict(mask=mask)
+
+    def post(self, a, ret, case):
+        c = self.ctx
+        run, st, grid = c["run"], c["st"], c["grid"]
+        g = run.ghost["cart"]
+        out = []
+        if not isinstance(ret, EmRec):
+            return [("returns an Emulsion", False)]
+        if ret.kind == "empty":
+            return [("an empty emulsion is returned exactly for an image without set cells", c["n"] == 0)]
+        out.append(("an image with set cells does not give the empty-emulsion shortcut", c["n"] >= 1))
+        src = ret.source_seq
+        ok = isinstance(src, SSeq)
+        out.append(("the emulsion is built from one candidate per label that is still present", ok))
+        if ok:
+            k = z3.Int("sk_cand")
+            v = src.at(k)
+            good = isinstance(v, CandRec) and isinstance(v.position, SArr) and len(v.position.elems) == st.dim and z3.is_expr(v.volume)
+            out.append(("candidate k is SphericalDroplet.from_volume(position, volume) of the k-th present label", bool(good)))
+            if good:
+                L = PRESENT(k)
+                out.append(("its volume is the volume of that label: cell volume * number of cells of the merged component",
+                            z3.And(v.volume == z3.Select(st.VOL, L - 1), z3.Select(st.VOL, L - 1) == c["cv"] * z3.Select(st.CNT, L))))
+                for a_ in range(st.dim):
+                    x = grid.lo[a_] + grid.dx[a_] * z3.Select(st.POS, L - 1, z3.IntVal(a_))
+                    want = WRAP(x, grid.lo[a_], z3.ToReal(grid.n[a_]) * grid.dx[a_]) if grid.periodic[a_] else x
+                    out.append((f"its position along axis {a_} is the mean unwrapped cell centre of the component in grid coordinates"
+                                + (", wrapped into the bounds by whole periods" if grid.periodic[a_] else ""),
+                                z3.And(to_real(v.position.elems[a_]) == want,
+                                       z3.Select(st.POS, L - 1, z3.IntVal(a_)) == z3.Select(st.MOM, L, z3.IntVal(a_)))))
+        out.append(("overlapping candidates are removed once, with the grid's (periodic) metric",
+                    len(ret.calls) == 1 and ret.calls[0][0] == [] and set(ret.calls[0][1]) == {"grid"} and ret.calls[0][1]["grid"] is grid))
+        out.append(("the image is labelled once and count / centre of mass are taken per label", bool(g.get("labelled") and g.get("com") and g.get("sum"))))
+        # every periodic axis is stitched: all pairs of facing boundary cells (low side 0, high side N-1, equal other coordinates) are scanned
+        want_axes = [a_ for a_ in range(st.dim) if grid.periodic[a_]]
+        out.append(("every periodic axis is scanned for clusters that face each other across its boundary, once; non-periodic axes are not",
+                    sorted(ax0 for ax0, _, _ in g["done"]) == want_axes))
+        j = z3.Int("sk_pair")
+        for ax0, seq0, _ in g["done"]:
+            lh = seq0.at(j)
+            l_, h_ = norm_cell(st, lh[0]), norm_cell(st, lh[1])
+            total = z3.IntVal(1)
+            for a_ in range(st.dim):
+                if a_ != ax0:
+                    total = total * st.shape[a_]
+            shape_ok = z3.And(l_[ax0] == 0, h_[ax0] == st.shape[ax0] - 1, *[l_[a_] == h_[a_] for a_ in range(st.dim) if a_ != ax0])
+            free_ok = all(a_ == ax0 or (z3.is_app(l_[a_]) and l_[a_].decl().name().startswith("coord")) for a_ in range(st.dim))
+            out.append((f"axis {ax0}: the scanned pairs are (cell on the low face, the cell facing it on the high face) for all cells of the face",
+                        z3.And(z3.BoolVal(bool(free_ok)), shape_ok, to_z3(seq0.length) == total)))
+        return out
